@@ -9,7 +9,7 @@ from harness.props import _ver
 from debian_inspector import package
 from debian_inspector.version import Version
 
-NAMES = ['bash', 'libc6', 'g++', 'lib.so-x', 'python3.11', 'a', 'x+y', '0ad', 'apr-util']
+NAMES = ['bash', 'libc6', 'g++', 'lib.so-x', 'python3.11', 'a', 'x+y', '0ad', 'apr-util', 'lib.tar.utils', 'x.orig', 'p.deb']
 ARCHS = ['amd64', 'all', 'i386', 'arm64', 'kfreebsd-amd64']
 DIRS = ['', '/', 'pool/main/b/bash/', '/var/cache/', 'a_b/', 'dir.deb/', './', 'x/y_z.w/']
 BIN_EXT = ['.deb', '.udeb']
@@ -139,7 +139,7 @@ def p_mixed(fs):
 
 def run(ctx):
     rng = ctx.rng
-    vers = valid_versions(rng, ctx.n(300, 3000)) + [b for b in _ver.BOUNDARY if '_' not in b]
+    vers = valid_versions(rng, ctx.n(300, 3000)) + [b for b in _ver.BOUNDARY if '_' not in b] + ['1.0.tar.2', '1.0.orig.tar.1', '2.tar.gz1', '1.dsc', '1.0.deb.1']
     cases = []
     for _ in range(ctx.n(6000, 80000)):
         n, v, d = rng.choice(NAMES), rng.choice(vers), rng.choice(DIRS)
@@ -201,7 +201,7 @@ def run(ctx):
     for _ in range(ctx.n(2500, 40000)):
         k = rng.randint(1, 12)
         ns = rng.sample(NAMES, rng.randint(1, 3))
-        mixed.append(['%s_%s_%s.deb' % (rng.choice(ns), rng.choice(vs_small), rng.choice(ARCHS[:2])) for _ in range(k)])
+        mixed.append([rng.choice(['', '', 'a/', 'z/', 'pool/m/']) + '%s_%s_%s.deb' % (rng.choice(ns), rng.choice(vs_small), rng.choice(ARCHS[:2])) for _ in range(k)])
     fails += ctx.prop('prop:latest-is-maximum', same, p_latest)
     fails += ctx.prop('prop:latest-per-name', same[:2000] + mixed, p_latest_per_name)
     fails += ctx.prop('prop:mixed-names', mixed, p_mixed)
